@@ -77,7 +77,11 @@ pub fn residue_class(rows: &[HRow], model: &MResult, msg: &str) -> Option<&'stat
         return if v.sub(&nearest).abs().lt(&eps) { Some("R5") } else { None };
     }
     if msg.contains("went below zero in 30-day period after sale") || msg.contains("is less than sold shares") {
-        return if empties_a_holding { Some("R1b") } else { None };
+        if empties_a_holding { return Some("R1b"); }
+        // a sale whose gain is exactly zero in rationals (cost per share x shares = proceeds) is a loss of ~1e-26 for the tool once the
+        // balance carries the rounding of a non-terminating split factor (R5): the tool then runs a look-ahead the history does not call for
+        let zero_gain_sale = model.rows.iter().any(|m| m.act == Act::Sell && !m.registered && m.gain.as_ref().map(|g| g.is_zero()).unwrap_or(false) && m.raw_gain.is_none());
+        return if zero_gain_sale { Some("R5") } else { None };
     }
     None
 }
@@ -296,6 +300,10 @@ pub fn check_reject(c: &RejectCase, obs: &mut Obs) -> Verdict {
         let planted_msg = match me.cause { Cause::OverSale | Cause::OverSaleSeenFromWindow { .. } => msg.contains(&offending.td.to_string()) && (msg.contains(&format!(" of {} shares", offending.shares)) || msg.contains("30-day period")), Cause::RocExceedsAcb => msg.contains("Invalid RoC") && msg.contains(&offending.td.to_string()), Cause::FractionalReverseSplit => msg.contains("non-integer") && msg.contains(&offending.td.to_string()), _ => false };
         if !planted_msg { return known_or_fail(id, format!("{sec} is rejected before the planted row for a rounding-residue reason: {msg}\n{csv}")); }
     }
+    // a loss below the comparison tolerance (say 7.5e-11 from a 1e-10 commission) is rounded away by the tool ("effective cent") but
+    // not by the exact model; which later sale then counts as a loss, and so where a look-ahead starts, is not decidable at 1e-9
+    let eps9 = tol9();
+    if model.rows.iter().any(|m| m.raw_gain.as_ref().map(|g| !g.is_zero() && g.abs().lt(&eps9)).unwrap_or(false)) { return Verdict::Skip("loss-below-comparison-tolerance".into()); }
     // (3a) message identifies the transaction: carries the offending row's trade date
     let date = offending.td.to_string();
     if !msg.contains(&date) { return Verdict::Fail(format!("rejection message does not identify the offending transaction (trade date {date}): {msg}\n{csv}")); }
@@ -311,7 +319,7 @@ pub fn check_reject(c: &RejectCase, obs: &mut Obs) -> Verdict {
         Ok(st) => { let want = mrows.iter().filter(|m| m.src.is_some()).count(); if st.user_rows < want { if let Some(id) = residue_class(&sec_rows, &MResult { rows: base_model.rows.clone(), err: None }, msg) { return known_or_fail(id, format!("{sec} is rejected before the planted row for a rounding-residue reason: {msg}\n{csv}")); } } if st.user_rows != want { return Verdict::Fail(format!("{sec}: rows shown ({} input rows) are not the ledger prefix before the offending transaction ({} input rows)\nmessage: {msg}\n{csv}", st.user_rows, want)); } }
         Err(e) => {
             if let Err((_, at)) = crate::cmp::compare_at(&mrows, &n, true, &CmpWhat::all()) { if let Some(id) = zero_residue_class(&sec_rows, &MResult { rows: mrows.clone(), err: None }, at) { return known_or_fail(id, format!("{sec}: prefix shown differs for a recorded rounding-residue reason: {e}\n{csv}")); } }
-            return Verdict::Fail(format!("{sec}: rows shown for the rejected history are not a correct prefix: {e}\nmessage: {msg}\n{csv}"));
+            return Verdict::Fail(format!("{sec}: rows shown for the rejected history are not a correct prefix: {e}\nmessage: {msg}\n{csv}{}", if std::env::var("ACBVERIF_DUMP").is_ok() { crate::cmp::dump(&mrows, &n) } else { String::new() }));
         }
     }
     // other securities must be unaffected in their accept/reject outcome
